@@ -37,7 +37,17 @@ func overlayFiles() (map[string]string, error) {
 		ov[filepath.Join(repoDir, dir, "zz_verif_"+base)] = p
 		return nil
 	})
-	return ov, err
+	if err != nil {
+		return nil, err
+	}
+	gen, err := generatedOverlay()
+	if err != nil {
+		return nil, err
+	}
+	for v, r := range gen {
+		ov[v] = r
+	}
+	return ov, nil
 }
 
 func goEnv() []string {
